@@ -278,8 +278,13 @@ def gen_op(r, w, i):
         closer = {"var(v,": ")", "var(v, ": ")", "f(": ")", "calc(": ")", "rgb(": ")", "not(": ")", "(": ")", "[": "]", "{": "}", "url(": ")", "var(": ")", "a{": "}", "@media print{": "}", ":not(": ")", "@page{": "}", "\"": "\"", "/*": "*/"}[opener]
         inner = r.choice(["1", "a", "x:y", "", "red", "a{left:0}", "b{top:0} c{left:1px}"])  # (the last two: valid content of nested rule blocks)
         closed = r.choice([d, d, d // 2, 0])
+        fmt = r.choice(["a{x:%s}", "%s", "a{%s}", "@media all{%s}", "a %s {}", "@x %s;"])
+        if opener == "@media print{" and r.random() < 0.6:
+            # well-formed nesting of rule blocks with real content at the bottom (and deep, but inside the recursion limit)
+            inner, closed, fmt = r.choice(["a{left:0}", "b{top:0} c{left:1px}", "@page{margin:0}"]), d, r.choice(["%s", "%s", "@media all{%s}", "x{top:0} %s y{top:1px}"])
+            d = closed = r.choice([8, 12, 16, 20, 24, 32, 48])
         body = opener * d + inner + closer * closed
-        root = r.choice(["a{x:%s}", "%s", "a{%s}", "@media all{%s}", "a %s {}", "@x %s;"]) % body
+        root = fmt % body
         op["depth"] = d
     else:
         cyc = r.random() < 0.5
